@@ -107,6 +107,7 @@ struct Stats {
     echo_nondefault: u64,
     lenient_continued: u64,
     digest: u64,
+    stable: [u64; 4],
     states: HashSet<u64>,
     types_hit: HashSet<usize>,
     viol: Vec<(u64, Case, String)>,
@@ -173,9 +174,14 @@ fn account(s: &mut Stats, index: u64, case: &Case, j: &Judged) {
     let mut h = Fnv::default();
     h.u64(index);
     // pointer text (`{:p}` fields) is equal on both sides of a run but differs between processes
-    h.bytes(mask_pointers(&j.dm.out).as_bytes());
+    let (mdm, mrf) = (mask_pointers(&j.dm.out), mask_pointers(&j.rf.out));
+    // a case whose output carries `0x…` text may carry an address: with code under test that prints a
+    // *wrong* address, even the verdict can flip with the address values (a cut-off stump may coincide),
+    // so such cases are left out of the determinism self-check's verdict comparison
+    let address_bearing = mdm != j.dm.out || mrf != j.rf.out;
+    h.bytes(mdm.as_bytes());
     h.u64(j.dm.ok as u64);
-    h.bytes(mask_pointers(&j.rf.out).as_bytes());
+    h.bytes(mrf.as_bytes());
     h.u64(j.rf.ok as u64);
     let class = match &j.verdict {
         Verdict::Agree => {
@@ -204,7 +210,17 @@ fn account(s: &mut Stats, index: u64, case: &Case, j: &Judged) {
             3
         }
     };
-    h.u64(class);
+    if !address_bearing {
+        h.u64(class);
+        s.stable[class as usize] += 1;
+    }
+    if let Ok(p) = std::env::var("FMTSIM_TRACE") {
+        use std::io::Write;
+        if let Ok(mut f) = std::fs::OpenOptions::new().create(true).append(true).open(p) {
+            let line = format!("{} {:016x} {}\n", index, h.0, class);
+            let _ = f.write_all(line.as_bytes());
+        }
+    }
     s.digest = s.digest.wrapping_add(h.0 | 1);
 }
 
@@ -218,8 +234,9 @@ fn mask_pointers(s: &str) -> String {
             while j < b.len() && b[j].is_ascii_hexdigit() {
                 j += 1;
             }
-            // a sink fault can cut a pointer short: a hex run that reaches the end of the text is masked too
-            if j - (i + 2) >= 8 || j == b.len() {
+            // every `0x…` run is masked, however short: a sink fault can cut a pointer short, and (with a
+            // builder that wrongly keeps writing after the fault) more text can follow the stump
+            if j > i + 2 {
                 out.push_str("0xPTR");
                 i = j;
                 continue;
@@ -248,6 +265,9 @@ fn merge(a: &mut Stats, b: Stats) {
         sut_nonexh_plain, sut_empty_name_single, sut_zero_fields, echo_nondefault, lenient_continued
     );
     a.digest = a.digest.wrapping_add(b.digest);
+    for i in 0..4 {
+        a.stable[i] += b.stable[i];
+    }
     a.states.extend(b.states);
     a.types_hit.extend(b.types_hit);
     a.viol.extend(b.viol);
@@ -355,6 +375,7 @@ fn cmd_run(args: &[String]) -> i32 {
         "specs": specs::N_SPECS,
         "layers": {"builder": total.builder, "derived": total.derived},
         "verdicts": {"agree": total.agree, "known_finding": total.known, "violation": total.violations, "harness": total.harness},
+        "verdicts_excluding_address_bearing_cases": {"agree": total.stable[0], "known_finding": total.stable[1], "violation": total.stable[2], "harness": total.stable[3]},
         "fault_free_cases": total.fault_free,
         "faults": {
             "sink_full": {"configured": total.sink_full_cfg, "fired": total.sink_full_fired},
